@@ -107,6 +107,20 @@ pub fn gen_tree(r: &mut Rng, cfg: &TreeCfg, vs: &[Var]) -> Tree {
     let uops: Vec<UnaryOpcode> = UOPS.iter().cloned().filter(|u| cfg.hash_ops || *u != UnaryOpcode::Rand).collect();
     let bops: Vec<BinaryOpcode> = BOPS.iter().cloned().filter(|b| cfg.hash_ops || *b != BinaryOpcode::Mix).collect();
     let mut remaps_left = cfg.remaps;
+    // a few matrices reused within the tree, so that a shared remapped part can be met again
+    // under a frame equal to the one it produces (repeated placement steps)
+    let mats: Vec<Affine3<f32>> = (0..2).map(|_| gen_affine(r)).collect();
+    if cfg.remaps >= 2 && r.chance(0.35) {
+        let base = tree_bin(&pool[r.below(3)], *r.pick(&[BinaryOpcode::Mul, BinaryOpcode::Add, BinaryOpcode::Max]), pool[r.below(3)].clone()).sqrt().abs();
+        let m = mats[0];
+        let part = base.remap_affine(m);
+        let other = if r.chance(0.5) { base.clone() } else { pool[r.below(pool.len())].clone() };
+        let pair = if r.chance(0.5) { tree_bin(&part, BinaryOpcode::Min, other) } else { tree_bin(&other, BinaryOpcode::Min, part.clone()) };
+        let moved = if r.chance(0.7) { pair.remap_affine(if r.chance(0.8) { m } else { mats[1] }) } else { let (x, y, z) = Tree::axes(); pair.remap_xyz(x + 1.0, y, z) };
+        let row = if r.chance(0.5) { tree_bin(&moved, *r.pick(&[BinaryOpcode::Min, BinaryOpcode::Max, BinaryOpcode::Sub]), part.clone()) } else { tree_bin(&part, *r.pick(&[BinaryOpcode::Min, BinaryOpcode::Max, BinaryOpcode::Sub]), moved) };
+        pool.push(part); pool.push(row);
+        remaps_left = remaps_left.saturating_sub(2);
+    }
     for k in 0..cfg.ops {
         let pick = |r: &mut Rng, pool: &Vec<Tree>| -> Tree {
             if r.chance(0.25) { Tree::constant(if cfg.tame { gen_tame(r) } else { gen_const(r) }) }
@@ -118,8 +132,8 @@ pub fn gen_tree(r: &mut Rng, cfg: &TreeCfg, vs: &[Var]) -> Tree {
             let target = pick(r, &pool);
             if r.chance(0.5) { target.remap_xyz(pick(r, &pool), pick(r, &pool), pick(r, &pool)) }
             else {
-                let t1 = target.remap_affine(gen_affine(r));
-                if r.chance(0.4) { t1.remap_affine(gen_affine(r)) } else { t1 }   // consecutive affines collapse
+                let t1 = target.remap_affine(if r.chance(0.4) { mats[r.below(2)] } else { gen_affine(r) });
+                if r.chance(0.4) { t1.remap_affine(if r.chance(0.4) { mats[r.below(2)] } else { gen_affine(r) }) } else { t1 }   // consecutive affines collapse
             }
         } else if r.chance(0.35) { let a = pick(r, &pool); tree_un(&a, *r.pick(&uops)) }
         else { let a = pick(r, &pool); let b = pick(r, &pool); tree_bin(&a, *r.pick(&bops), b) };
@@ -225,9 +239,28 @@ pub fn tree_case(r: &mut Rng, cmd: &str, remaps: usize) -> TreeResult {
     if exported != twin { fails.push("kind=tree-eq two exports of one node are not equal".into()); }
     let h = |t: &Tree| { let mut s = DefaultHasher::new(); t.hash(&mut s); s.finish() };
     if h(&exported) != h(&twin) { fails.push("kind=tree-hash structurally equal trees hash differently".into()); }
+    // ... and sharing is unobservable: an equal tree rebuilt node by node with no shared subtree
+    fn unshare(t: &TreeOp) -> Tree {
+        match t {
+            TreeOp::Input(v) => Tree::from(*v),
+            TreeOp::Const(c) => Tree::constant(*c as f32),
+            TreeOp::Unary(u, a) => tree_un(&unshare(a), *u),
+            TreeOp::Binary(b, l, r) => tree_bin(&unshare(l), *b, unshare(r)),
+            TreeOp::RemapAxes { target, x, y, z } => unshare(target).remap_xyz(unshare(x), unshare(y), unshare(z)),
+            TreeOp::RemapAffine { target, mat } => unshare(target).remap_affine(*mat),
+        }
+    }
+    for (name, a) in [("exported", &exported), ("built", &tree)] {
+        let u = unshare(a);
+        if *a != u { fails.push(format!("kind=tree-eq the {name} tree is not equal to its copy without sharing")); }
+        else if h(a) != h(&u) { fails.push(format!("kind=tree-hash the {name} tree and its equal copy without sharing hash differently")); }
+        else { let mut m: HashMap<Tree, u8> = HashMap::new(); m.insert(u, 1); if m.get(a) != Some(&1) { fails.push(format!("kind=tree-hash HashMap lookup of the {name} tree misses its equal key")); } }
+    }
     // ---- meaning: node value vs the unrewritten tree evaluated operation by operation
     for _ in 0..4 {
-        let p = [gen_tame(r) + 0.0137, gen_tame(r) - 0.0071, gen_tame(r) + 0.0213];
+        let mut p = [gen_tame(r) + 0.0137, gen_tame(r) - 0.0071, gen_tame(r) + 0.0213];
+        // sometimes tiny magnitudes: products underflow (finite), where algebraic shortcuts stop being exact
+        if r.chance(0.2) { let k = *r.pick(&[1e-20f32, 3e-20, 1e-30, 1e-38]); for v in p.iter_mut() { *v *= k; } }
         let mut vars: HashMap<Var, f32> = HashMap::new();
         for v in &vs { vars.insert(*v, gen_tame(r) + 0.0091); }
         let (mut fin, mut zero) = (true, false);
@@ -268,6 +301,11 @@ pub fn deep_child() -> i32 {
         let r = t.remap_xyz(Tree::y(), Tree::z(), Tree::x());
         let _ = ctx.import(&r);
         drop(r); drop(e); drop(t); drop(u);
+        // chains in which every level uses the previous one for ALL its operands
+        let mut d = Tree::x();
+        for i in 0..n { d = match i % 3 { 0 => d.clone() + d, 1 => d.clone().min(d), _ => d.clone() * d }; }
+        let d2 = d.clone();
+        drop(d); drop(d2);
     }).unwrap();
     match h.join() { Ok(()) => 0, Err(_) => 3 }
 }
